@@ -5,7 +5,7 @@
    oracle (root and options serialised before and after every call) — partial, DESIGN.md section 9. *)
 From Coq Require Import List String Bool Arith.
 From Spec Require Import Base.Json Base.Url Codec.Types Codec.Gen_Tables Codec.Codec Codec.CodecFacts Expand.Expand Expand.ExpandFacts
-  Expand.ExpandSim Expand.ExpandSimCheck Expand.ExpandCycle Expand.ExpandElem Expand.ExpandTermG Expand.ExpandExample.
+  Expand.ExpandSim Expand.ExpandSimCheck Expand.ExpandCycle Expand.ExpandElem Expand.ExpandTermG Expand.ExpandExample Expand.ExpandChain Expand.ExpandSpecSim.
 Import ListNotations.
 Local Open Scope string_scope.
 
@@ -146,3 +146,48 @@ Qed.
 Example C10_example_runs : exists s' j',
   expand_schema_with_base gen_env ex_docs "/" (mkOpts false false false) ex_root_url None 8 ex_other_url [] ex_c10 = Done (s', j').
 Proof. vm_compute. eexists. eexists. reflexivity. Qed.
+
+(* ---------- the element entry points without side conditions (Expand/ExpandChain.v, ExpandSpecSim.v) ---------- *)
+(* ExpandParameter / ExpandResponse against a base location, and Expand{Parameter,Response}WithRoot against a supplied root:
+   on a checked graph (schemas, elements, chains) whatever the call returns is the END of the element's chain, with its schema
+   replaced by a [sound_schema] (bisimilar to it when read at the root location; every `$ref` left in it on a cycle) - the
+   chain IS followed to its end (no hypothesis about deref any more), from whatever consistent cache the caller supplies *)
+Local Open Scope string_scope.
+Theorem C10_element_with_base_sound : forall E docs cwd OP ctx_base nodes enodes bad0 ranks live,
+  (forall lu ld, live = Some (lu, ld) -> doc_at docs cwd lu = Some ld) -> o_cont OP = false -> o_skip OP = false ->
+  check_nodes E docs cwd OP ctx_base "" nodes = true -> check_enodes E docs cwd enodes nodes = true ->
+  check_chains E docs cwd nodes enodes bad0 ranks = true ->
+  forall kind d base c0 m s' j',
+  (forall u x, assoc u c0 = Some x -> assoc u docs = Some x) ->
+  GEN enodes kind base m ->
+  expand_element_with_base E docs cwd OP ctx_base live d base c0 kind (JObj m) = Done (s', j') ->
+  por_rel E docs cwd (sound_schema E docs cwd OP ctx_base "" nodes bad0) kind base (JObj m) j'.
+Proof.
+  intros E docs cwd OP ctx_base nodes enodes bad0 ranks live Hlive Hstrict Hskip Hck Hcke Hckc kind d base c0 m s' j' Hc0 Hg H.
+  unfold expand_element_with_base in H.
+  refine (proj2 (checked_por_step E docs cwd OP ctx_base "" nodes enodes bad0 ranks live Hlive Hstrict Hskip Hck Hcke Hckc kind d (S d) _ None base (JObj m) s' j' Hg _ _ H)).
+  - split; [split; [exact Hc0|reflexivity]|intros x Hx; destruct Hx].
+  - intros ru Hru. discriminate.
+Qed.
+Print Assumptions C10_element_with_base_sound.
+
+Theorem C10_element_with_root_sound : forall E docs cwd OP ctx_base nodes enodes bad0 ranks live,
+  (forall lu ld, live = Some (lu, ld) -> doc_at docs cwd lu = Some ld) -> o_cont OP = false -> o_skip OP = false ->
+  check_nodes E docs cwd OP ctx_base "" nodes = true -> check_enodes E docs cwd enodes nodes = true ->
+  check_chains E docs cwd nodes enodes bad0 ranks = true ->
+  forall kind d pseudo root c0 m s' j',
+  assoc pseudo docs = Some root -> (forall u x, assoc u c0 = Some x -> assoc u docs = Some x) ->
+  GEN enodes kind pseudo m ->
+  expand_element_with_root E docs cwd OP ctx_base live d pseudo root c0 kind (JObj m) = Done (s', j') ->
+  por_rel E docs cwd (sound_schema E docs cwd OP ctx_base "" nodes bad0) kind pseudo (JObj m) j'.
+Proof.
+  intros E docs cwd OP ctx_base nodes enodes bad0 ranks live Hlive Hstrict Hskip Hck Hcke Hckc kind d pseudo root c0 m s' j' Hroot Hc0 Hg H.
+  unfold expand_element_with_root in H.
+  refine (proj2 (checked_por_step E docs cwd OP ctx_base "" nodes enodes bad0 ranks live Hlive Hstrict Hskip Hck Hcke Hckc kind d (S d) _ (Some pseudo) pseudo (JObj m) s' j' Hg _ _ H)).
+  - split; [split; [|reflexivity]|intros x Hx; destruct Hx].
+    unfold state_with_root. cbn [cache]. intros u x. cbn [assoc]. destruct (String.eqb u pseudo) eqn:Eu.
+    + apply String.eqb_eq in Eu. subst u. intros Hx. inversion Hx; subst. exact Hroot.
+    + apply Hc0.
+  - intros ru Hru. inversion Hru; subst. reflexivity.
+Qed.
+Print Assumptions C10_element_with_root_sound.
